@@ -1,23 +1,128 @@
-"""C41  Uncommitted updates have no effect on a batch (see vf/batchfamily.py)."""
+"""C41  Uncommitted updates have no effect on a batch.
+
+Same state space as C01 (vf/batchfamily.py) with the second update committed late or never.
+(i)  every state: jobs of uncommitted updates stay Pending, never get attempts (the real scheduler sweep is a
+     transition), and the C01 / C06 recomputations restricted to committed updates hold;
+(ii) differential: a SHADOW world receives exactly the same history minus the requests of the uncommitted update;
+     while the update is uncommitted the main database restricted to everything that does not belong to that
+     update must be identical to the shadow database ("exactly as if it had not been started").
+"""
 from vf import batchfamily as bf
+from vf import batchops as ops
+from vf import dbmc
 from vf.props import c01 as base
 
 NEEDS_SERVICES = True
 PID = 'C41'
 MONITORS = tuple('C41,C01,C06'.split(','))
+U = 2  # the update whose requests the shadow world never sees
+
+
+class PairWorld(ops.BatchWorld):
+    def __init__(self, *a, **k):
+        super().__init__(*a, **k)
+        self.shadow = ops.BatchWorld(*a, **k)
+        self.shadow_on = False
+
+    def snapshot(self):
+        return (super().snapshot(), self.shadow.snapshot(), self.shadow_on)
+
+    def restore(self, snap):
+        super().restore(snap[0])
+        self.shadow.restore(snap[1])
+        self.shadow_on = snap[2]
+
+
+def restricted(w, without_update=None):
+    d = w.mdb.store.dump(drop=bf.DROP)
+    d.pop('batch_bunches', None)
+    if without_update is None:
+        return d
+    T = w.table
+    jobs_u = {j['job_id'] for j in T('jobs') if j['update_id'] == without_update}
+    groups_u = {g['job_group_id'] for g in T('job_groups') if g['update_id'] == without_update}
+    out = {}
+    for name in d:
+        rows = []
+        for r in T(name):
+            if name in ('jobs', 'job_parents', 'job_attributes', 'jobs_telemetry', 'attempts', 'attempt_resources', 'aggregated_job_resources_v3') \
+                    and r.get('job_id') in jobs_u:
+                continue
+            if name == 'batch_updates' and r['update_id'] == without_update:
+                continue
+            if name in ('job_groups_inst_coll_staging', 'job_group_inst_coll_cancellable_resources') and r['update_id'] == without_update:
+                continue
+            if name in ('job_groups', 'job_group_self_and_ancestors', 'job_group_attributes', 'job_groups_n_jobs_in_complete_states',
+                        'job_groups_cancelled', 'aggregated_job_group_resources_v3') and r.get('job_group_id') in groups_u:
+                continue
+            rows.append(r)
+        cols = [c.name for c in w.mdb.store.tables[name].cols if c.name not in bf.DROP]
+        rr = sorted((tuple(str(r[c]) if r[c] is not None else None for c in cols) for r in rows), key=repr)
+        if rr:
+            out[name] = rr
+    return out
+
+
+class H(bf.Family):
+    def make_world(self):
+        return PairWorld(instances=(('i1', 'standard', 'active'), ('i2', 'standard', 'active')))
+
+    def initial(self, w):
+        res = []
+        for name, u1, u2, pre in self.setups:
+            def setup(w, u1=u1, u2=u2, pre=pre):
+                for ww in (w, w.shadow):
+                    ops.apply(ww, ('new_batch', 'u1', 't1', 0, 0))
+                    for l in bf.SCRIPTS[u1]:
+                        self._do(ww, l)
+                for l in pre:   # setups whose `pre` already opens an update are not compared (later updates get different ids)
+                    self._do(w, l)
+                w.script, w.pos = u2, 0
+                w.shadow.script, w.shadow.pos = None, 0
+                w.shadow_on = not pre and bool(bf.SCRIPTS[u2])
+
+            res.append(([('setup', name)], setup))
+        return res
+
+    def apply(self, w, label):
+        obs = super().apply(w, label)
+        if w.shadow_on:
+            if label[0] == 'client':
+                req = bf.SCRIPTS[w.script][label[1]]
+                if req[0] in ('commit', 'commit_tail') and obs.get('status') == 200:
+                    w.shadow_on = False   # committed: from now on the update is supposed to have effects
+            else:
+                w.shadow.token = w.token
+                ops.apply(w.shadow, label)
+        return obs
+
+    def check_state(self, w):
+        out = super().check_state(w)
+        if w.shadow_on:
+            a, b = restricted(w, U), restricted(w.shadow, U)
+            if a != b:
+                diff = {t: (a.get(t), b.get(t)) for t in set(a) | set(b) if a.get(t) != b.get(t)}
+                t = sorted(diff)[0]
+                out.append((f'uncommitted-update-changed:{t}',
+                            f'with update {U} submitted but uncommitted, table {t} (restricted to everything not belonging to that update) '
+                            f'differs from the same history without the update: {diff[t][0]} vs {diff[t][1]}'))
+        return out
+
+    def canon(self, w):
+        return super().canon(w) + repr(w.shadow_on) + (repr(sorted(restricted(w.shadow).items())) if w.shadow_on else '')
 
 
 def check(tier, seed, procs):
     depth = 5 if tier == 'quick' else 8
-    res = bf.run(MONITORS, base.setups(tier), tier, depth, procs, time_budget=55 if tier == 'quick' else 1500)
+    res = dbmc.bfs(H, (sorted(MONITORS), base.setups(tier), tier, None), depth=depth, procs=procs, time_budget=70 if tier == 'quick' else 1500)
     cov = bf.coverage(res, f'1 batch, update 1 committed (2-3 jobs, 1-2 nested groups), update 2 submitted step by step '
-                           f'(1-2 jobs, 0-1 groups, 1-2 bunches), 2 pool instances, depth {depth}; monitors {MONITORS}')
-    return {'coverage': cov, 'violations': res.violations, 'assumptions': bf.ASSUME,
+                           f'(1-2 jobs, 0-1 groups, 1-2 bunches) and committed late or never, one setup with two open updates, 2 pool instances, '
+                           f'depth {depth}; monitors {MONITORS} + shadow-world differential')
+    return {'coverage': cov, 'violations': res.violations, 'assumptions': bf.ASSUME + [
+        'differential clause: compared only while no other update was opened after the uncommitted one (later updates would get different ids)'],
             'vacuous': None if res.states > 100 else f'only {res.states} states'}
 
 
 def replay(obj):
-    from vf import dbmc
-
-    v = dbmc.replay_history(bf.Family, (sorted(MONITORS), base.setups('thorough'), 'thorough', None), obj['history'])
+    v = dbmc.replay_history(H, (sorted(MONITORS), base.setups('thorough'), 'thorough', None), obj['history'])
     return (not v), (v[0][1] if v else 'no violation')
